@@ -18,7 +18,7 @@ EXPLANATION = (
     "saturation value of that same compartment (index agreement through temporaries). C19.d: every read of the adjusted field capacity (and of any other daily-updated state field of which "
     "initialisation leaves a snapshot in the static profile) below the step goes through the state, never through the snapshot. C19.e: the daily water-table series is interpolated on the observations' own dates "
     "(time-weighted, never by position), no label store can append an entry for a date outside the period, and what is handed to the model is "
-    "restricted to the simulation days (the rule carries its own positive example, the pre-fix code, and fails closed if it stops matching it). NOT decided: range "
+    "restricted to the simulation days; the date masks of the held-constant method include the observation's own date (the rule carries its own positive example, the pre-fix code, and fails closed if it stops matching it). NOT decided: range "
     "of adjusted field capacity, capillary-rise limit, interpolation of observations, equivalence of a very deep table "
     "with none (numeric).")
 
@@ -218,6 +218,21 @@ def rule_e(chk, prog):
                 chk.ok("C19.e", where, txt, "built on / restricted to the simulation days (time_span)")
             else:
                 chk.violation("C19.e", where, txt, "the series handed to the model is not restricted to the simulation days", loc=fi.loc(da))
+    # held-constant observations: the depth of an observation applies from its own date on (and the first one also before it)
+    nmask = 0
+    for a in walk_no_nested(fi.node):
+        if isinstance(a, ast.Assign) and isinstance(a.targets[0], ast.Subscript) and isinstance(a.targets[0].value, ast.Attribute) \
+                and a.targets[0].value.attr == "loc" and isinstance(a.targets[0].slice, ast.Compare):
+            c = a.targets[0].slice
+            if any(isinstance(x, ast.Attribute) and x.attr == "index" for x in ast.walk(c)) and len(c.ops) == 1:
+                nmask += 1
+                n += 1
+                if isinstance(c.ops[0], (ast.GtE, ast.LtE, ast.Eq)):
+                    chk.ok("C19.e", where, norm(a)[:80], "the observation's own date is included")
+                else:
+                    chk.violation("C19.e", where, norm(a)[:80], "the mask excludes the observation's own date: on that day the previous observation's depth is still "
+                                  "used, the daily depth does not follow the configured observations", loc=fi.loc(a))
+    chk.floor("C19.e-masks", nmask, 2, "date masks applying a held-constant observation")
     chk.floor("C19.e", n, 3, "constructions of the daily water-table series")
 
 
